@@ -34,7 +34,7 @@ Step(ev) ==
   \/ /\ ev.ev = "entry" /\ PickOne(NodeOf(ti, ev.ino), ev.descend)
      /\ (Len(out') > Len(out)) = ev.reported
   \/ ev.ev = "leave" /\ stack # <<>> /\ Top.dir = NodeOf(ti, ev.ino) /\ EndOfDir
-  \/ ev.ev = "dequeue" /\ queue # <<>> /\ Res(Head(queue)) = NodeOf(ti, ev.ino) /\ Dequeue
+  \/ ev.ev = "dequeue" /\ queue # <<>> /\ Res(Head(queue)[1]) = NodeOf(ti, ev.ino) /\ Dequeue
   \/ ev.ev = "drained" /\ queue = <<>> /\ Dequeue
   \/ ev.ev = "done" /\ Finish
 
@@ -47,5 +47,5 @@ TNext ==
      /\ IF ti < Len(Runs) THEN Load(ti + 1) ELSE UNCHANGED vars
 TSpec == TInit /\ [][TNext]_tvars
 (* the WalkerL invariants, re-checked on the model states the real runs drive it through *)
-TraceInv == NeverTwice /\ EnteredOnce /\ OnlyBehind /\ ExactAtEnd /\ EnteredAtEnd /\ QueueOnlyInBfs
+TraceInv == NeverTwice /\ EnteredOnce /\ OnlyBehind /\ ExactAtEnd /\ WindowAtEnd /\ EnteredAtEnd /\ QueueOnlyInBfs
 =============================================================================
